@@ -392,9 +392,12 @@ DryIsPure == kcfg.dry => keff = {} /\ kstat = 0
 \* C07
 NoSignalWhileHookOutstanding == kph = "attempt" => ~hk.has /\ hk.inv \notin liveInv
 AtMostOneInvocation == Cardinality(liveInv) <= 1
+\* one hook per victim ATTEMPT: a cgroup reachable through two overlapping patterns can be a candidate twice in one
+\* run (after its own failed kill); then it is attempted - and its hook fired - once per candidacy, never twice
+\* without a kill attempt on it in between
 OneFirePerVictim ==
-  \A i, j \in DOMAIN khist : (i < j /\ khist[i].kind = "fire" /\ khist[j].kind = "fire") =>
-     khist[i].path # khist[j].path
+  \A i, j \in DOMAIN khist : (i < j /\ khist[i].kind = "fire" /\ khist[j].kind = "fire" /\ khist[i].path = khist[j].path) =>
+     \E k \in DOMAIN khist : i < k /\ k < j /\ khist[k].kind = "attempt" /\ khist[k].path = khist[i].path
 
 \* C17
 RetMapping ==
